@@ -389,6 +389,64 @@ def rule_flatten_elements(ctx, rep, rule_id="R-NODETYPE"):
         raise AnalysisError(f"only {n} FlattenSentinel constructions found (9 confirmed by hand)")
 
 
+TIGHT_OPERAND_CTORS = {
+    # constructor -> operand keywords whose value is parsed at a tighter level than "any expression"
+    "StarredElement": ("value",), "StarredDictElement": ("value",), "Await": ("expression",),
+}
+ATOMIC_CST = {"Name", "Attribute", "Call", "Subscript", "SimpleString", "ConcatenatedString", "FormattedString", "Integer", "Float", "List", "Tuple", "Set", "Dict",
+              "ListComp", "SetComp", "DictComp", "GeneratorExp", "Ellipsis"}
+
+
+def rule_starred_operand(ctx, rep):
+    rep.rule(
+        "R-STARRED-OPERAND",
+        "where a transformer builds `*<expr>` / `**<expr>` / `await <expr>` around an expression it found in the source, that expression "
+        "is known to be atomic (a match / isinstance restricts its node class, or it was just built as a name / call / literal) or it is "
+        "given parentheses: the operand of a starred element is parsed tighter than `or`, `if-else`, `not`, comparisons and lambdas, so "
+        "`validation_rules=rules or []` moved under a star becomes `[*rules or [], ...]`, which no longer parses",
+        min_instances=1,
+    )
+    n = 0
+    for fn in ctx.prog.live_functions():
+        if not fn.module.name.startswith(("core_codemods.", "codemodder.codemods", "codemodder.utils")) or fn.module.name.startswith("codemodder.codemods.test"):
+            continue
+        r = None
+        fa = None
+        for c in walk_no_nested(fn.node):
+            if not isinstance(c, ast.Call):
+                continue
+            ctor = last_attr(c.func) or ""
+            operands = []
+            if ctor in TIGHT_OPERAND_CTORS:
+                operands = [k.value for k in c.keywords if k.arg in TIGHT_OPERAND_CTORS[ctor]] + (list(c.args[:1]) if c.args else [])
+            elif ctor == "Arg" and any(k.arg == "star" and isinstance(k.value, ast.Constant) and k.value.value in ("*", "**") for k in c.keywords):
+                operands = [k.value for k in c.keywords if k.arg == "value"] + (list(c.args[:1]) if c.args else [])
+            for e in operands:
+                n += 1
+                r = r or ctx.resolver(fn)
+                v = r.expand(e) if isinstance(e, ast.Name) and e.id not in fn.params() else e
+                fresh = isinstance(v, ast.Call) and (last_attr(v.func) in ATOMIC_CST or last_attr(v.func) in ("parse_expression",) and v.args and isinstance(v.args[0], ast.Constant))
+                wrapped = isinstance(v, ast.Call) and last_attr(v.func) == "with_changes" and any(k.arg == "lpar" and not (isinstance(k.value, (ast.List, ast.Tuple)) and not k.value.elts) for k in v.keywords)
+                restricted = False
+                if isinstance(e, ast.Name):
+                    fa = fa or ctx.flow(fn)
+                    must = fa.must_at(c)
+                    for pol, txt in must:
+                        # MATCH:<subject>:<Class> facts from `match e: case cst.Name() | cst.Call():`, isinstance(e, (cst.Name, ...))
+                        if pol and txt.startswith("MATCH:") and txt.split(":")[1] == e.id and all(t_.split(".")[-1].split("(")[0] in ATOMIC_CST for t_ in txt.split(":", 2)[2].split("|")):
+                            restricted = True
+                        if pol and txt.startswith(f"isinstance({e.id},") and all(w.strip(" ()").split(".")[-1] in ATOMIC_CST for w in txt[len(f"isinstance({e.id},"):-1].split(",") if w.strip(" ()")):
+                            restricted = True
+                    ann = r.param_annotation(e.id) if e.id in fn.params() else None
+                    if ann is not None and unparse(ann).split(".")[-1] in ATOMIC_CST:
+                        restricted = True
+                rep.check("R-STARRED-OPERAND", fn.qname, fn.loc(c), fresh or wrapped or restricted, f"{ctor}:{unparse(e)[:30]}",
+                          f"`{unparse(c)[:70]}` puts an expression taken from the source under a star / await without parentheses and without knowing its "
+                          "node class: `a or b`, `x if c else y`, `not x`, comparisons and lambdas there produce code that does not parse")
+    if n == 0:
+        rep.instance("R-STARRED-OPERAND", "codebase", "src/", True, detail="no starred / awaited operand is built from a source expression")
+
+
 def check(ctx, rep):
     rep.explanation = (
         "Parseability of libcst's output for arbitrary inputs is not decidable here and is declined. Decided instead: the two gaps in "
@@ -413,6 +471,7 @@ def check(ctx, rep):
 
     # names chosen without the scope metadata collide with names in use (walrus target = comprehension variable: SyntaxError)
     rule_metadata_original(ctx, rep)
+    rule_starred_operand(ctx, rep)
     rep.not_covered += [
         "validity of libcst code generation for arbitrary trees (the core of the property)",
         "node removal / flattening inside blocks (RemovalSentinel leaving an empty suite) — libcst raises, the pipeline records a failure",
